@@ -16,7 +16,7 @@ import time
 HERE = os.path.dirname(os.path.abspath(__file__))
 VERIF = os.path.dirname(HERE)
 sys.path.insert(0, HERE)
-from mutants import MUTANTS, NEUTRAL  # noqa: E402
+from mutants import MUTANTS, NEUTRAL, NEUTRAL_EXCEPT  # noqa: E402
 
 REPO = os.environ.get("VERIF_REPO", "/repo")
 
@@ -72,6 +72,8 @@ def main(argv):
                 d = make_copy(edits)
                 try:
                     for prop in props:
+                        if prop in NEUTRAL_EXCEPT.get(name, ()):
+                            continue
                         rc, txt, dt = run_check(prop, d, runs, out)
                         ok = rc == 0
                         bad += not ok
